@@ -261,6 +261,22 @@ def determinism(args):
             log("iosim census %s %s: summaries of %d processes (workers 1,16,5): %s" % (side, profile, len(outs), "identical" if same else "DIFFERENT"))
             if not same:
                 problems += 1
+    # hook-free controlled histories: a block in a fresh process is a repeatable value
+    binary, _ = cargo_build("treapsim_plain", "sim-dbg")
+    outs = []
+    for _ in range(3):
+        o = []
+        for k in (0, 1, 7, 100, 1023):
+            rc, so, se = run([binary, "ctlblock", "--seed", "424242", "--block", str(k)], timeout=600)
+            if rc != 0:
+                raise HarnessError("ctlblock failed: " + se[-300:])
+            o.append(so)
+        outs.append("".join(o))
+    same = all(o == outs[0] for o in outs)
+    report.append({"engine": "treapsim_plain", "mode": "ctlblock", "profile": "sim-dbg", "runs": 5 * 64, "processes": 15, "identical": same})
+    log("treapsim_plain ctlblock: 5 blocks x 3 fresh processes each: %s" % ("identical" if same else "DIFFERENT"))
+    if not same:
+        problems += 1
     # Miri: same seed, same program => same output
     cfgs = vcheck.c17_matrix(424242, 16)
     a = [vcheck.miri_run(c) for c in cfgs]
